@@ -17,6 +17,9 @@ References and dereferences are transparent.
 """
 
 
+FOLDABLE_DISCR_TYPES = {"tracing_core::metadata::Level", "tracing_core::metadata::LevelInner"}
+
+
 def const_term(c):
     ty = c.get("ty")
     if "int" in c:
@@ -132,7 +135,13 @@ class PathEval:
         if "un" in rv:
             return ("un", rv["un"], self.operand(env, rv["a"]))
         if "discr" in rv:
-            return ("discr", self.place(env, rv["discr"]))
+            t = self.place(env, rv["discr"])
+            # discriminant of a named constant of a transparent newtype over a fieldless enum with explicit
+            # discriminants (tracing_core::Level(LevelInner)): the evaluated scalar *is* the discriminant
+            inner = t[1] if (t[0] == "field" and t[2] == "0") else t
+            if inner[0] == "const" and isinstance(inner[2], int) and inner[1] in FOLDABLE_DISCR_TYPES:
+                return ("const", "isize", inner[2], None)
+            return ("discr", t)
         if "agg" in rv:
             a = rv["agg"]
             kind = a.get("adt") or ("closure:" + a["closure"] if "closure" in a else
